@@ -4,6 +4,7 @@ import (
 	"context"
 	"fmt"
 	"github.com/herohde/morlock/cmd/bernstein/bernstein"
+	"github.com/herohde/morlock/cmd/turochamp/turochamp"
 	"math/rand"
 	"strconv"
 	"strings"
@@ -65,6 +66,8 @@ func searchCfg(name string) (search.AlphaBeta, bool) {
 		return search.AlphaBeta{Explore: noUnderPromo, Eval: quiet}, true
 	case "bern-static": // the search the BERNSTEIN engine runs (plausible-move table at every node, its own evaluation)
 		return search.AlphaBeta{Explore: bernstein.PlausibleMoveTable{Limit: 7}.Explore, Eval: search.Leaf{Eval: bernstein.Eval{Factor: 8}}}, true
+	case "turo-quiet": // the search the TUROCHAMP engine runs (cmd/turochamp/main.go)
+		return search.AlphaBeta{Eval: search.Quiescence{Explore: turochamp.ConsiderableMovesOnly, Eval: search.Leaf{Eval: turochamp.Eval{}}}}, true
 	}
 	return search.AlphaBeta{}, false
 }
@@ -358,6 +361,21 @@ func genC03(o *Out, r *rand.Rand, thorough bool) {
 		d := 1 + r.Intn(3)
 		emit("bern-static~", start, moves, []string{fmt.Sprintf("s:%d:%s:0", d, fullWin)})
 		o.Count("cfg:bern-static")
+	}
+	// the search the TUROCHAMP engine runs (quiescence over the considerable moves, which look at the board after the move and
+	// at the move before it; evaluation reads the castled flags, so lines with castling are preferred): implementation vs model
+	tn := n / 6
+	for i := 0; i < tn; i++ {
+		start, moves, b := randomLine(r, 20)
+		if b.Position().Piece(board.White, board.King) == 0 || b.Position().Piece(board.Black, board.King) == 0 {
+			continue
+		}
+		d := 1 + r.Intn(2)
+		emit("turo-quiet~", start, moves, []string{fmt.Sprintf("s:%d:%s:0", d, fullWin)})
+		o.Count("cfg:turo-quiet")
+		if b.HasCastled(board.White) || b.HasCastled(board.Black) {
+			o.Count("cfg:turo-quiet:castled")
+		}
 	}
 	dn := 12
 	if thorough {
